@@ -778,11 +778,11 @@ type typedInner struct {
 	Tags  []string `json:"tags,omitempty"`
 }
 type typedInput struct {
-	Query  string             `json:"query"`
-	Limit  int                `json:"limit,omitempty"`
+	Query  string             `json:"query" jsonschema:"default=q0"`
+	Limit  int                `json:"limit,omitempty" jsonschema:"default=25"`
 	Big    int64              `json:"big,omitempty"`
-	Ratio  float64            `json:"ratio,omitempty"`
-	Flag   *bool              `json:"flag,omitempty"`
+	Ratio  float64            `json:"ratio,omitempty" jsonschema:"default=0.75"`
+	Flag   *bool              `json:"flag,omitempty" jsonschema:"default=true"`
 	Tags   []string           `json:"tags,omitempty"`
 	Labels map[string]string  `json:"labels,omitempty"`
 	Filter *typedInner        `json:"filter,omitempty" jsonschema:"description=an optional filter"`
